@@ -1,5 +1,5 @@
 """C09 -- concurrent lookups and forgets never lose a reference or duplicate an inode."""
-import os, sys, json, random, re, itertools
+import os, sys, json, random, re, itertools, shutil
 from vlib import *
 
 PROP = 'C09'
@@ -120,7 +120,7 @@ def run_check(tier, seed):
         return finish(ev, PROP, findings, broken)
     rnd = random.Random(seed)
     progs = programs(tier, rnd)
-    d = os.path.join(SCRATCH, 'ptconc'); os.makedirs(d, exist_ok=True)
+    d = os.path.join(SCRATCH, 'ptconc', str(os.getpid())); os.makedirs(d, exist_ok=True)      # per process
     script = make_script(progs, rnd, 3 if tier == 'quick' else 2000)
     sp = os.path.join(d, 'c09.txt'); open(sp, 'w').write(script)
     import time as _t; _t0 = _t.time()
@@ -180,6 +180,7 @@ def run_check(tier, seed):
                                              'observed': {'outcomes [count, getattr errno, times]': r['outcomes']},
                                              'sig': {'check': 'concurrent-stress', 'threads': len(r['progs'])}})
                 ev.cov['stress_runs'] = iters * len(st)
+    shutil.rmtree(d, ignore_errors=True)
     ev.cov['evaluations'] = len(runs)
     ev.cov['distinct_nontrivial'] = len(shapes)
     ev.cov['programs'] = len(progs); ev.cov['programs_fully_enumerated'] = complete; ev.cov['programs_truncated'] = truncated
